@@ -143,7 +143,8 @@ def _forward(case, r, nondefault):
         r.label('reused_module')
         fwd = mk(twin)
         xw = torch.ones(1, 1, 8, 8, requires_grad=True)
-        sum(t.sum() for t in _outs(fwd(xw), skip, scl, case['o_dim'], case['ri_dim'])).backward()
+        # ordinary use of the library (an exception here - e.g. outputs cut off from the graph - is the library's)
+        core.libcall(lambda: sum(t.sum() for t in _outs(fwd(xw), skip, scl, case['o_dim'], case['ri_dim'])).backward())
         fresh = mk(case['qshift'])
         try:
             fwd.load_state_dict(fresh.state_dict())
@@ -228,7 +229,7 @@ def _inverse(case, r, nondefault):
         lw = torch.ones(1, 1, 8, 8, requires_grad=True)
         hw = [to_layout(torch.ones(1, 1, 6, 8, 8, 2), o, ri).requires_grad_(True),
               to_layout(torch.ones(1, 1, 6, 4, 4, 2), o, ri).requires_grad_(True)]
-        inv((lw, hw)).sum().backward()
+        core.libcall(lambda: inv((lw, hw)).sum().backward())
         fresh = mk(case['qshift'])
         try:
             inv.load_state_dict(fresh.state_dict())
